@@ -8,6 +8,7 @@ CONSTANTS
     Tier = "quick"
     NanRule = "notconverged"
     FluxRule = "segment"
+    ScanNorm = "asked"
     Reporter = "earlier"
     EmitOn = FALSE
 INIT Init
